@@ -85,6 +85,11 @@ var props = map[string]propCfg{
 		c.Assume = append(append([]string{}, c.Assume...), "the race detector keeps a bounded access history per memory location: two accesses far apart can be missed", "WaitGroup Add-concurrent-with-Wait annotations of the detector are counted, not reported (DESIGN §2.8)", "no API-level oracle runs in this configuration: the driver makes no calls into the runner, so that it adds no happens-before edges")
 		return c
 	}(),
+	"C14": func() propCfg {
+		c := cfgA("C14", "seeded HTTP clients against the real handler (no sockets) while jobs run: route drawn from the routes discovered by walking the router, credential class from {none, garbage, empty, truncated, wrong secret, alg none, HS384, HS512, RS256 header, expired, not yet valid, valid, valid with exp/nbf at seeded distances from the fake now}, transport from {Authorization header, lower-case bearer, jwt cookie}, profiling on/off per run; the clock is advanced across exp/nbf between requests; every answer is compared with nbf <= now < exp, rejected requests must leave the runner's state digest and the stub untouched; non-trivial = an HTTP request was judged; distinct = distinct trace hash. The route x credential x transport cross product is plain enumeration reached by sampling, the simulator contributes the clock and the live runner", false)
+		c.Real = append(append([]string{}, c.Real...), "server package: chi router, jwtauth verifier/authenticator, handlers (via http.Handler, no sockets)", "lestrrat-go/jwx token validation on the fake clock")
+		return c
+	}(),
 	"C15": cfgA("C15", "seeded histories with settle-and-probe actions (list, then schedule at once), HTTP and direct reads; non-trivial = a schedulable probe or HTTP listing was evaluated; distinct = distinct trace hash", false),
 	"C16": cfgA("C16", "seeded old/new definition pairs produced by mutation (tasks added/removed/rewired, scripts, env, delay, limits, strategy, pipelines dropped/added), reloads at seeded points of job lives; non-trivial = a reload happened while a job was waiting or running; distinct = distinct trace hash", true),
 }
@@ -130,6 +135,7 @@ type WorkerOut struct {
 	Errors       []string          `json:"errors"`
 	SeedsFirst   uint64            `json:"seed_first"`
 	SeedsLast    uint64            `json:"seed_last"`
+	Sets         map[string][]string `json:"sets,omitempty"`
 	Extra        map[string]interface{} `json:"extra,omitempty"`
 }
 
@@ -777,6 +783,21 @@ func merge(outs []*WorkerOut) *WorkerOut {
 		if o.SeedsLast > m.SeedsLast {
 			m.SeedsLast = o.SeedsLast
 		}
+		for name, items := range o.Sets {
+			if m.Sets == nil {
+				m.Sets = map[string][]string{}
+			}
+			seen := map[string]bool{}
+			for _, it := range m.Sets[name] {
+				seen[it] = true
+			}
+			for _, it := range items {
+				if !seen[it] {
+					seen[it] = true
+					m.Sets[name] = append(m.Sets[name], it)
+				}
+			}
+		}
 		for k, v := range o.Extra {
 			if f, ok := v.(float64); ok {
 				if old, ok := m.Extra[k].(float64); ok {
@@ -1001,6 +1022,15 @@ func writeEvidence(rc *runCtx, m *WorkerOut, workers int, deadline float64, nvio
 	}
 	for k, v := range m.Extra {
 		cov[k] = v
+	}
+	for name, items := range m.Sets {
+		sort.Strings(items)
+		cov[name+"_reached"] = len(items)
+		ex := items
+		if len(ex) > 12 {
+			ex = ex[:12]
+		}
+		cov[name+"_examples"] = ex
 	}
 	ev := map[string]interface{}{
 		"property_id": rc.cfg.ID,
